@@ -225,6 +225,12 @@ def r09_2(rep, M, rid):
             calls = fl.calls_in_slice(inner, at)
             if any(GEO + ".get_radii" in M.callees_of_call(FQ, c) for c in calls):
                 return "max_radii"
+            return "max of something else than the resolved radii: " + norm(inner)
+        # other reductions of the radii are not an upper bound of r_i + r_j
+        if isinstance(e, ast.Call) and isinstance(e.func, ast.Attribute) and e.func.attr in ("min", "mean", "sum") and not e.args:
+            return f"{e.func.attr} of {norm(e.func.value)}"
+        if isinstance(e, ast.Call) and e.args and ext(M, FQ, e.func) in ("numpy.min", "numpy.mean", "numpy.median", "numpy.amin"):
+            return norm(e)
         return None
     calls = [(n, c) for n, d in fl.cfg.g.nodes(data=True) if d["ast"] is not None
              for c in walk_own(d["ast"]) if isinstance(c, ast.Call) and DISP in M.callees_of_call(FQ, c)]
@@ -278,7 +284,8 @@ def r09_2(rep, M, rid):
         if amin is not None and not (isinstance(amin, ast.Constant) and amin.value == 0):
             rep.violation(rid, "get_clusters: clip lower bound", f"a_min = `{norm(amin)}`, expected 0", M.where(CLUST, c))
     if not clips:
-        raise AnalysisError("get_clusters: np.clip of the distance matrix not found")
+        rep.violation(rid, "get_clusters: clip of the distance matrix", "the radii-corrected distances are not clipped: negative entries (overlapping "
+                      "atoms) and infinite entries (pairs beyond the cutoff) reach DBSCAN", M.where(CLUST))
     db = [c for c in ast.walk(fn2) if isinstance(c, ast.Call) and (ext(M, CLUST, c.func) or "").endswith("DBSCAN")
           or (isinstance(c, ast.Call) and isinstance(c.func, ast.Name) and c.func.id == "DBSCAN")]
     if not db:
@@ -393,12 +400,33 @@ def r09_3(rep, M, rid):
                    and t.test.comparators[0].value == 1
                    and any(isinstance(s, ast.Assign) and isinstance(s.value, ast.Constant) and s.value.value is None for s in t.body)]
     ok_none = False
+    comp_test = None
     for t in none_branch:
         sl = fl.slice(t.test.left, fl.node_of(t))
         if any(cc is cl[0] for e in sl["exprs"] for cc in ast.walk(e)):
             ok_none = True
-    if ok_none:
-        rep.ok(rid, "None exactly when the 1x bonding graph has more than one component")
+            comp_test = t
+    # ... and nothing may pre-empt it: every assignment of a non-None result lies on the False side of that test
+    preempt = []
+    if comp_test is not None:
+        dim_vars = {norm(s2.targets[0]) for s2 in comp_test.body if isinstance(s2, ast.Assign)}
+        for n2, d2 in fl.cfg.g.nodes(data=True):
+            s2 = d2["ast"]
+            if isinstance(s2, ast.Assign) and norm(s2.targets[0]) in dim_vars and not (isinstance(s2.value, ast.Constant) and s2.value.value is None):
+                conds = fl.cfg.branch_conditions(n2)
+                if not any(t is comp_test and pol is False for t, pol in conds):
+                    preempt.append(s2)
+        for r in [cfg_r for cfg_r in fl.cfg.returns]:
+            rs = fl.cfg.stmt(r)
+            if not any(isinstance(x, ast.Name) and x.id in dim_vars for x in ast.walk(rs)) and rs.value is not None:
+                conds = fl.cfg.branch_conditions(r)
+                if not any(t is comp_test for t, pol in conds) and not fl.cfg.all_paths_pass(fl.cfg.entry, r, [fl.cfg.node_of[id(comp_test)]]):
+                    preempt.append(rs)
+    if ok_none and not preempt:
+        rep.ok(rid, "None exactly when the 1x bonding graph has more than one component (no other result can pre-empt the test)")
+    elif ok_none:
+        rep.violation(rid, "get_dimensionality: None branch pre-empted", f"`{norm(preempt[0])[:60]}` assigns a result without passing the test "
+                      "`#components(1x) > 1`: a cell with several disconnected components gets a number instead of None", M.where(FQ, preempt[0]))
     else:
         rep.violation(rid, "get_dimensionality: None branch", "`None` is not returned exactly under `#components(1x) > 1`", M.where(FQ))
     zero = [t for t in ast.walk(fn) if isinstance(t, ast.If) and isinstance(t.test, ast.Compare)
